@@ -2,7 +2,8 @@
    cluster statement rests on, for all states / oracles.  The cluster-wide timed composition
    (full discovery within a linear number of periods, zero false suspicion throughout) is decided
    by the discrete-event simulation of real instances with per-step refinement in scope. *)
-From Foca Require Import Laws MembersM ProbeM FocaM WireM L_Members L_MembersInv L_Join Inv L_Wire L_Probe L_Mech L_RoundRobin.
+From Foca Require Import Laws MembersM ProbeM FocaM WireM L_Members L_MembersInv L_Join Inv L_Wire L_Probe L_Mech L_RoundRobin L_RoundEnd L_Evidence.
+From Coq Require Import Permutation.
 
 Section C02.
 Context {Id Addr : Type} {IO : IdOps Id Addr} {CO : CodecOps Id} {HO : HandlerOps Id}.
@@ -43,6 +44,21 @@ Theorem C02_everyone_is_probed (rnd : oracle) (ms : @members Id) (n : N) (x : me
   In x (iter_next rnd (2 * na (inner ms) - 1) (fst (state_after rnd j ms n)) (snd (state_after rnd j ms n))).
 Proof. exact (next_sliding_window rnd ms n x j). Qed.
 
+(* ZERO FALSE SUSPICION, one instance, any interleaving: if the Ack of the member being probed (current
+   number) has been handled at any moment of the round, then whatever calls follow - datagrams, other
+   timers, API calls, in any order and number, none of them the live ProbeRandomMember timer - the
+   ProbeRandomMember timer that ends the round schedules no suspicion timeout and leaves the member
+   list alone *)
+Theorem C02_answered_round_never_suspects (rnd : oracle) (l : list (@input Id)) (f : @foca Id Addr HO) :
+  ev (prb f) -> no_live_probe rnd f l -> conn (run_calls rnd f l) = Connected ->
+  let g := run_calls rnd f l in
+  let '(f', es, _, _) := step rnd g (ITimer (TProbeRandomMember (token g))) in
+  cstd_of es = [] /\ Permutation (inner (mems f')) (inner (mems g)).
+Proof.
+  intros H NL Cn. cbv zeta.
+  exact (round_with_evidence_ends_quietly rnd (run_calls rnd f l) Cn (history_keeps_evidence rnd l f NL H)).
+Qed.
+
 End C02.
 
 Print Assumptions C02_ping_acked.
@@ -50,3 +66,4 @@ Print Assumptions C02_acked_round_raises_no_suspicion.
 Print Assumptions C02_sender_is_learned.
 Print Assumptions C02_no_spontaneous_suspicion.
 Print Assumptions C02_everyone_is_probed.
+Print Assumptions C02_answered_round_never_suspects.
